@@ -58,9 +58,13 @@ type Plan struct {
 	ErrPattern  []int  `json:"errpattern"`
 	StoreFaults []int  `json:"storefaults"`
 	Script      []GOp  `json:"script"`
-	Release     bool   `json:"release"`
-	Latency     []int  `json:"latency"`
-	Deliv       []int  `json:"deliv"`
+	// ReactOut lists the ids whose output has a reactive third party: the moment it sees the output turn
+	// tearing-down it places its finalizer on it (legal: finalizers may be added in any phase), i.e. right
+	// between the controller's Teardown and Destroy of that output.
+	ReactOut []int `json:"reactout,omitempty"`
+	Release  bool  `json:"release"`
+	Latency  []int `json:"latency"`
+	Deliv    []int `json:"deliv"`
 }
 
 // IDs of the input domain.
@@ -70,7 +74,9 @@ var IDs = []string{"a", "b", "c"}
 func F(v string) string { return "f(" + v + ")" }
 
 // UsesInputFinalizers tells whether the configuration puts the controller's finalizer on inputs.
-func (p Plan) UsesInputFinalizers() bool { return p.Ctrl != "transform" && p.Ctrl != "transform-ignore" }
+func (p Plan) UsesInputFinalizers() bool {
+	return p.Ctrl != "transform" && p.Ctrl != "transform-ignore"
+}
 
 // Gen draws a plan; ctrls restricts the configurations.
 func Gen(ctrls []string) func(t *rapid.T) Plan {
@@ -85,6 +91,10 @@ func Gen(ctrls []string) func(t *rapid.T) Plan {
 
 		if rapid.IntRange(0, 3).Draw(t, "hasdrop") == 0 {
 			p.DropIDs = []int{rapid.IntRange(0, 2).Draw(t, "dropid")}
+		}
+
+		if rapid.IntRange(0, 2).Draw(t, "hasreact") == 0 {
+			p.ReactOut = rapid.SliceOfNDistinct(rapid.IntRange(0, 2), 1, 3, rapid.ID[int]).Draw(t, "reactout")
 		}
 
 		p.ErrPattern = rapid.SliceOfNDistinct(rapid.IntRange(0, 8), 0, 3, rapid.ID[int]).Draw(t, "errpattern")
@@ -258,7 +268,9 @@ func runBubble(p Plan) *Result {
 	)
 
 	w, err := sim.NewWorld(sim.WorldOptions{
-		RTLatency:  func(_ string, n int) time.Duration { return time.Duration(p.Latency[n%len(p.Latency)]) * time.Millisecond },
+		RTLatency: func(_ string, n int) time.Duration {
+			return time.Duration(p.Latency[n%len(p.Latency)]) * time.Millisecond
+		},
 		DelivDelay: func(n int) time.Duration { return time.Duration(p.Deliv[n%len(p.Deliv)]) * time.Millisecond },
 		RTFault: func(op string, _ model.Key, _ int) error {
 			if op != "Create" && op != "Update" && op != "Destroy" {
@@ -404,6 +416,50 @@ func runBubble(p Plan) *Result {
 	ext := state.WrapCore(w.Ext)
 	ctx := w.Ctx
 
+	var xmu sync.Mutex
+
+	hold := func(k string, v bool) {
+		xmu.Lock()
+		defer xmu.Unlock()
+
+		if v {
+			res.ExtHeld[k] = true
+		} else {
+			delete(res.ExtHeld, k)
+		}
+	}
+
+	if len(p.ReactOut) > 0 {
+		rch := make(chan state.Event)
+
+		if err := ext.WatchKind(ctx, resource.NewMetadata("n1", hres.TypeGB, "", resource.VersionUndefined), rch); err != nil {
+			res.Harness = "reactive watch: " + err.Error()
+
+			return res
+		}
+
+		go func() {
+			for {
+				select {
+				case <-ctx.Done():
+					return
+				case ev := <-rch:
+					if ev.Type != state.Updated || ev.Resource.Metadata().Phase() != resource.PhaseTearingDown || ev.Old == nil || ev.Old.Metadata().Phase() != resource.PhaseRunning {
+						continue
+					}
+
+					id := ev.Resource.Metadata().ID()
+
+					for _, ri := range p.ReactOut {
+						if IDs[ri] == id && ext.AddFinalizer(ctx, ev.Resource.Metadata(), ExtB) == nil {
+							hold(hres.TypeGB+"/"+id+"/"+ExtB, true)
+						}
+					}
+				}
+			}
+		}()
+	}
+
 	apply := func(op GOp, n int) {
 		id := IDs[op.ID]
 		inPtr := resource.NewMetadata("n1", hres.TypeGA, id, resource.VersionUndefined)
@@ -433,22 +489,22 @@ func runBubble(p Plan) *Result {
 			// a well-behaved party only places finalizers on running resources
 			if r, err := ext.Get(ctx, inPtr); err == nil && r.Metadata().Phase() == resource.PhaseRunning {
 				if ext.AddFinalizer(ctx, inPtr, fin) == nil {
-					res.ExtHeld[hres.TypeGA+"/"+id+"/"+fin] = true
+					hold(hres.TypeGA+"/"+id+"/"+fin, true)
 				}
 			}
 		case "in-remfin":
 			if ext.RemoveFinalizer(ctx, inPtr, fin) == nil {
-				delete(res.ExtHeld, hres.TypeGA+"/"+id+"/"+fin)
+				hold(hres.TypeGA+"/"+id+"/"+fin, false)
 			}
 		case "out-addfin":
 			if r, err := ext.Get(ctx, outPtr); err == nil && r.Metadata().Phase() == resource.PhaseRunning {
 				if ext.AddFinalizer(ctx, outPtr, ExtB) == nil {
-					res.ExtHeld[hres.TypeGB+"/"+id+"/"+ExtB] = true
+					hold(hres.TypeGB+"/"+id+"/"+ExtB, true)
 				}
 			}
 		case "out-remfin":
 			if ext.RemoveFinalizer(ctx, outPtr, ExtB) == nil {
-				delete(res.ExtHeld, hres.TypeGB+"/"+id+"/"+ExtB)
+				hold(hres.TypeGB+"/"+id+"/"+ExtB, false)
 			}
 		case "c-create":
 			c := hres.NewC(id+strconv.Itoa(op.Arg), "dep")
@@ -478,12 +534,12 @@ func runBubble(p Plan) *Result {
 		for _, id := range IDs {
 			for _, f := range []string{ExtI, ExtJ} {
 				if ext.RemoveFinalizer(ctx, resource.NewMetadata("n1", hres.TypeGA, id, resource.VersionUndefined), f) == nil {
-					delete(res.ExtHeld, hres.TypeGA+"/"+id+"/"+f)
+					hold(hres.TypeGA+"/"+id+"/"+f, false)
 				}
 			}
 
 			if ext.RemoveFinalizer(ctx, resource.NewMetadata("n1", hres.TypeGB, id, resource.VersionUndefined), ExtB) == nil {
-				delete(res.ExtHeld, hres.TypeGB+"/"+id+"/"+ExtB)
+				hold(hres.TypeGB+"/"+id+"/"+ExtB, false)
 			}
 
 			for _, sfx := range []string{"0", "1"} {
